@@ -187,6 +187,15 @@ def check(ctx):
            "dict with nodes -> gather_dict(one (key, value) pair per item, in insertion order, nodes allowed as keys)" if ok else
            "a dict holding nodes is not gathered as gather_dict over its (key, value) items in order: later-key-wins and key "
            "order of the rebuilt dict differ from direct evaluation")
+    # a container is gathered as it is NOW: gathering it again after it was mutated reflects the mutation (no memo by identity)
+    grow = [a]
+    r1 = g_(grow)
+    grow.append(b)
+    r2 = g_(grow)
+    ok = fn_name(r2) == "gather_list" and [x for x in args_of(r2)] == [a, b] and len(args_of(r1)) == 1
+    ctx.ob("C02.B2", f"{gather.short}/regather-after-mutation", ok, loc(gather),
+           "a container gathered, extended and gathered again yields a node for its current contents" if ok else
+           "a container that was gathered before is answered from a cache: after it was mutated the plan still evaluates its old contents")
     r = g_({a, 3})
     ok = fn_name(r) == "gather_set" and len(args_of(r)) == 2
     ctx.ob("C02.B2", f"{gather.short}/set-shape", ok, loc(gather), "set with a node -> gather_set(children)" if ok else "set with nodes is not gathered by gather_set")
